@@ -124,12 +124,12 @@ func (g *gen) wrapSpy(e string) string {
 	return e
 }
 
-var strVars = []string{"s1", "s2", "p1.Name", "pp.Name", "m1.k1", "m1['k2']", "sl[0]", "u1", "g1", "gm.k", "gp.Name", "S1", "S2", "p1.name", "m1.K1"}
+var strVars = []string{"ns", "nk|first", "nk|keys|first", "s1", "s2", "p1.Name", "pp.Name", "m1.k1", "m1['k2']", "sl[0]", "u1", "g1", "gm.k", "gp.Name", "S1", "S2", "p1.name", "m1.K1"}
 var intVars = []string{"n1", "n2", "p1.Age", "m1.num", "gn", "loop.index"}
 
 // identifiers that differ from others only by case: S1/s1, N1/n1 (distinct values in the context)
 var listVars = []string{"l1", "il", "sl", "p1.Tags", "l2", "gl"}
-var mapVars = []string{"m1", "m2", "p1.Meta", "mi", "gm"}
+var mapVars = []string{"m1", "m2", "p1.Meta", "mi", "gm", "nk"}
 var strFilters = []string{"upper", "lower", "trim", "capitalize", "title", "escape", "e", "raw", "striptags", "nl2br", "url_encode", "reverse", "length", "default('d')", "replace('a', 'b')", "slice(0, 2)", "first", "last", "json_encode", "spaceless"}
 var listFilters = []string{"reverse", "sort", "slice(1, 2)", "merge([7, 8])", "slice(0, 1)"}
 
@@ -410,7 +410,8 @@ func (g *gen) seg(d int) string {
 			s := "include '" + name + "'"
 			if g.r.P(20) && len(name) > 2 {
 				// a computed template name
-				s = "include '" + name[:len(name)-1] + "' ~ '" + name[len(name)-1:] + "'"
+				// (plain form only: this engine takes the text of a computed name literally when `with` follows)
+				return g.open("include '" + name[:len(name)-1] + "' ~ '" + name[len(name)-1:] + "'")
 			}
 			if g.r.P(40) {
 				s += " with {'s1': " + g.at("include-with", func() string { return g.wrapSpy(g.scalar(1)) }) + ", 'extra': " + g.scalar(0) + "}"
@@ -518,6 +519,11 @@ const libSrc = "{% macro box(v) %}[{{ v }}]{% endmacro %}{% macro tag(v, t = 'b'
 // spy function, spy filter, test), so that a failure inside an imported macro is a reachable position.
 const libSrcSpy = "{% set libv = spy('lib-top#0', 'lv')|upper %}{% macro box(v) %}[{{ v|upper }}{{ spy('lib-box-body#1', 1) }}]{% endmacro %}{% macro tag(v, t = 'b') %}<{{ t }}>{% if v is spyt('lib-tag-body#2') %}{{ v|spyf('lib-tag-body#3') }}{% else %}{{ v|lower }}{% endif %}</{{ t }}>{% endmacro %}"
 
+// nastyStrings are values that tend to sit on the edge of special cases: empty, blank, BOM, NUL, quotes,
+// backslashes, delimiter look-alikes, case variants, numeric look-alikes, long runs.
+var nastyStrings = []string{"", " ", "\xef\xbb\xbfbom", "nul\x00byte", "quote'\"both", "back\\slash", "{{ not a tag }}", "{% nor this %}", "Key", "key", "KEY",
+	"1", "01", "1.0", "1e3", "-0", "true", "null", "ünïcödé", "日本語", "tab\there", "line\nbreak", "a,b", "a=b&c=d", "<b>html</b>", "%d %s", strings.Repeat("x", 300)}
+
 func defaultCtx(r *R) *Val {
 	s := func(x string) *Val { return &Val{T: "str", S: x} }
 	i := func(x int) *Val { return &Val{T: "int", I: int64(x)} }
@@ -554,7 +560,23 @@ func defaultCtx(r *R) *Val {
 		{"p1", person("Ann", nil)},
 		{"pp", pp},
 		{"lab", &Val{T: "stringer", S: "L"}},
+		{"ns", &Val{T: "str", S: pick(r, nastyStrings)}},
+		{"nk", nastyMap(r)},
 	}}
+}
+
+// nastyMap is a map whose keys and values come from nastyStrings.
+func nastyMap(r *R) *Val {
+	m := &Val{T: "map"}
+	seen := map[string]bool{}
+	for i := 0; i < 5; i++ {
+		k := pick(r, nastyStrings)
+		if !seen[k] && len(k) < 50 {
+			seen[k] = true
+			m.M = append(m.M, KV{k, &Val{T: "str", S: pick(r, nastyStrings[:20])}})
+		}
+	}
+	return m
 }
 
 // genProgram builds a template set: main + optional partials/base/lib.
